@@ -13,6 +13,7 @@ package main
 import (
 	"bufio"
 	"bytes"
+	"encoding/csv"
 	"encoding/json"
 	"errors"
 	"flag"
@@ -89,6 +90,7 @@ type op struct {
 	Dest   string   `json:"d,omitempty"` // P: o d v t a p
 	Name   int      `json:"n"`           // id; F: -1 = fflush()
 	Pieces []string `json:"p,omitempty"` // P: what writeOutput receives, in order
+	Args   []string `json:"a,omitempty"` // P, form print: the arguments of the print statement
 	Form   string   `json:"f,omitempty"` // P: "printf" (one piece) or "print" (args, OFS, ORS)
 	Code   int      `json:"c,omitempty"` // X
 }
@@ -97,6 +99,7 @@ type history struct {
 	Mode  string         `json:"mode"`  // osfile unbuf buf
 	Cap   int            `json:"cap"`   // buf: size of the bufio.Writer
 	Limit int            `json:"limit"` // the writer under Output fails after this many bytes; -1 never
+	Out   string         `json:"out"`   // Config.OutputMode: "" (default), "csv", "tsv"
 	Init  map[int]string `json:"init"`  // files that exist before the run
 	Ops   []op           `json:"ops"`
 	Tag   string         `json:"tag"`
@@ -147,11 +150,12 @@ func (o op) render(mode string) string {
 		var st string
 		if o.Form == "printf" {
 			st = `printf "%s", ` + awkStr(o.Pieces[0]) + o.destText()
+		} else if o.Form == "bare" {
+			st = "print" + o.destText()
 		} else {
-			// pieces = a1 OFS a2 OFS ... an ORS
 			var args []string
-			for i := 0; i < len(o.Pieces)-1; i += 2 {
-				args = append(args, awkStr(o.Pieces[i]))
+			for _, a := range o.Args {
+				args = append(args, awkStr(a))
 			}
 			st = "print " + strings.Join(args, ", ") + o.destText()
 		}
@@ -179,6 +183,49 @@ func (o op) render(mode string) string {
 		return "do { r = (getline ln < " + nm + ") } while (r < 0); R(r); if (r == 1) L(ln)"
 	}
 	panic("op " + o.K)
+}
+
+// csvRecord: what printArgs hands to the destination for print a1, ..., an in CSV/TSV output mode
+// (interp/io.go writeCSV: encoding/csv with the mode's separator; a record that is a single empty
+// field is written as "" so that it survives being read back).
+func csvRecord(args []string, out string) string {
+	if len(args) == 1 && args[0] == "" {
+		return "\"\"\n"
+	}
+	var b bytes.Buffer
+	w := csv.NewWriter(&b)
+	if out == "tsv" {
+		w.Comma = '\t'
+	}
+	w.Write(args)
+	w.Flush()
+	return b.String()
+}
+
+// pieces: the strings one print/printf statement hands to its destination, in order.
+//
+//	printf "%s", s            -> s
+//	print  (no arguments)      -> $0 (empty in BEGIN), ORS            in every output mode
+//	print a1, ..., an          -> a1 OFS a2 ... an ORS                 in default mode
+//	                           -> the CSV/TSV record as one string     in CSV/TSV mode (through writeCSV)
+func (o op) pieces(out string) []string {
+	switch o.Form {
+	case "printf":
+		return o.Pieces
+	case "bare":
+		return []string{"", "\n"}
+	}
+	if out == "csv" || out == "tsv" {
+		return []string{csvRecord(o.Args, out)}
+	}
+	var ps []string
+	for i, a := range o.Args {
+		if i > 0 {
+			ps = append(ps, " ")
+		}
+		ps = append(ps, a)
+	}
+	return append(ps, "\n")
 }
 
 func (h history) program() string {
@@ -233,8 +280,9 @@ func (h history) modelLine() string {
 			if o.Dest == "o" || o.Dest == "d" || o.Dest == "v" {
 				n = 0
 			}
-			t = append(t, "P", o.Dest, strconv.Itoa(n), strconv.Itoa(len(o.Pieces)))
-			for _, p := range o.Pieces {
+			ps := o.pieces(h.Out)
+			t = append(t, "P", o.Dest, strconv.Itoa(n), strconv.Itoa(len(ps)))
+			for _, p := range ps {
 				t = append(t, hx.HexS(p))
 			}
 		case "C", "F", "S", "G", "K", "W":
@@ -381,6 +429,12 @@ func runImpl(h history) (oc outcome, herr error) {
 	}
 	errBuf := &lockedBuf{}
 	cfg := &interp.Config{Output: output, Error: errBuf, Stdin: strings.NewReader(""), Funcs: funcs, Environ: []string{}}
+	switch h.Out {
+	case "csv":
+		cfg.OutputMode = interp.CSVMode
+	case "tsv":
+		cfg.OutputMode = interp.TSVMode
+	}
 	func() {
 		defer func() {
 			if r := recover(); r != nil {
@@ -565,7 +619,7 @@ func reference(h history) *refRun {
 	for _, o := range h.Ops {
 		switch o.K {
 		case "P":
-			data := strings.Join(o.Pieces, "")
+			data := strings.Join(o.pieces(h.Out), "")
 			switch o.Dest {
 			case "o", "d", "v":
 				for id, st := range r.outs {
@@ -770,15 +824,15 @@ func mkPrint(r *hx.Rand, dest string, name int) op {
 		o.Form = "printf"
 		o.Pieces = []string{randPayload(r)}
 	} else {
+		if r.Intn(12) == 0 {
+			o.Form = "bare"
+			return o
+		}
 		o.Form = "print"
 		n := 1 + r.Intn(3)
 		for i := 0; i < n; i++ {
-			if i > 0 {
-				o.Pieces = append(o.Pieces, " ")
-			}
-			o.Pieces = append(o.Pieces, randPayload(r))
+			o.Args = append(o.Args, randField(r))
 		}
-		o.Pieces = append(o.Pieces, "\n")
 	}
 	return o
 }
@@ -787,15 +841,18 @@ func pr(dest string, name int, s string) op {
 	return op{K: "P", Dest: dest, Name: name, Form: "printf", Pieces: []string{s}}
 }
 func prl(dest string, name int, args ...string) op {
-	o := op{K: "P", Dest: dest, Name: name, Form: "print"}
-	for i, a := range args {
-		if i > 0 {
-			o.Pieces = append(o.Pieces, " ")
-		}
-		o.Pieces = append(o.Pieces, a)
+	return op{K: "P", Dest: dest, Name: name, Form: "print", Args: args}
+}
+
+// randField: an argument of print; in CSV/TSV mode it becomes a field: empty, plain, or needing quotes
+func randField(r *hx.Rand) string {
+	switch r.Intn(10) {
+	case 0, 1:
+		return ""
+	case 2:
+		return []string{"a,b", "say \"hi\"", "tab\there", " lead", "two\nlines", ",", "\"", "x\ty,z"}[r.Intn(8)]
 	}
-	o.Pieces = append(o.Pieces, "\n")
-	return o
+	return randPayload(r)
 }
 
 var fileIDs = []int{1, 2}
@@ -807,6 +864,12 @@ var glCmdIDs = []int{15, 16, 12, 10}
 // randHistory: echo=true allows the echoing command "cat" as a pipe destination.
 func randHistory(r *hx.Rand, lean bool) history {
 	h := history{Limit: -1, Init: map[int]string{}}
+	switch r.Intn(10) {
+	case 0, 1, 2:
+		h.Out = "csv"
+	case 3:
+		h.Out = "tsv"
+	}
 	if r.Intn(2) == 0 {
 		h.Init[1] = "old1\n"
 	}
@@ -895,6 +958,16 @@ func randHistory(r *hx.Rand, lean bool) history {
 }
 
 func withMode(h history, mode string, cap, limit int) history {
+	if (h.Out == "csv" || h.Out == "tsv") && mode == "buf" && cap < 4096 {
+		// With a *bufio.Writer Output smaller than 4096 bytes encoding/csv puts a second, private
+		// bufio.Writer on top of it which writeCSV never flushes: the records are lost (F-C13-4,
+		// see csvSmallBufferSearch).  The histories use the sizes for which writeCSV works.
+		if cap >= 64 {
+			cap = 8192
+		} else {
+			cap = 4096
+		}
+	}
 	h.Mode, h.Cap, h.Limit = mode, cap, limit
 	return h
 }
@@ -963,6 +1036,31 @@ func systematic() []history {
 	add("epipe-nothing-buffered", nil, pr("p", 17, ""), op{K: "W", Name: 6}, op{K: "F", Name: 17}, op{K: "C", Name: 17})
 	add("epipe-two-commands", nil, pr("p", 17, "x"), pr("p", 18, "y"), op{K: "W", Name: 6}, op{K: "W", Name: 7}, op{K: "C", Name: 18}, op{K: "C", Name: 17}, pr("o", 0, "after"))
 	add("epipe-unsynced-close", nil, pr("p", 17, "x"), op{K: "C", Name: 17}) // timing decides: the model answers unmod
+	// CSV / TSV output mode: print with arguments goes through writeCSV, which for every destination
+	// that is not itself a *bufio.Writer (files, commands, a plain or *os.File stdout) writes into one
+	// shared scratch bufio.Writer (4096 bytes) that it Resets on entry and must flush before it returns.
+	addOut := func(out, tag string, init map[int]string, ops ...op) {
+		if init == nil {
+			init = map[int]string{}
+		}
+		hs = append(hs, history{Limit: -1, Init: init, Ops: ops, Tag: tag, Out: out})
+	}
+	row4k := strings.Repeat("0123456789abcdef", 300)   // 4800 bytes: more than the scratch writer holds
+	row64k := strings.Repeat("0123456789abcdef", 4200) // 67200 bytes: more than a stream's buffer holds
+	for _, out := range []string{"csv", "tsv"} {
+		addOut(out, out+"-rows", nil, prl("o", 0, "a", "b c", "d\"e"), prl("o", 0, "x,y", "", "t\tu"), prl("o", 0, " lead", "two\nlines"), prl("o", 0, "only"))
+		addOut(out, out+"-empty-record-stdout", nil, prl("o", 0, "a"), prl("o", 0, ""), prl("o", 0, "b"))
+		addOut(out, out+"-empty-record-last", nil, prl("o", 0, "a"), prl("o", 0, ""))
+		addOut(out, out+"-empty-record-file", old, prl("t", 1, "a"), prl("t", 1, ""), prl("a", 2, ""), prl("t", 1, "b"), op{K: "C", Name: 1}, op{K: "G", Name: 1}, op{K: "G", Name: 1})
+		addOut(out, out+"-empty-record-cmd", nil, prl("p", 10, ""), prl("p", 11, "a", ""), prl("p", 11, ""), op{K: "C", Name: 10}, op{K: "C", Name: 11})
+		addOut(out, out+"-empty-record-then-other-destination", nil, prl("t", 1, ""), prl("o", 0, "next"), prl("p", 10, ""), prl("a", 2, "z"), prl("o", 0, ""), prl("t", 1, "q"))
+		addOut(out, out+"-interleaved", old, prl("o", 0, "s1", "s2"), prl("t", 1, "f1", "x,y"), prl("p", 10, "c1", ""), prl("a", 2, "", "g"), prl("o", 0, "s3"), prl("t", 1, "f2"), prl("p", 10, "c2"), prl("a", 2, "h"))
+		addOut(out, out+"-bare-print-and-printf", nil, prl("o", 0, "a", "b"), op{K: "P", Dest: "o", Form: "bare"}, pr("o", 0, "pf,\"raw\""), prl("t", 1, ""), op{K: "P", Dest: "t", Name: 1, Form: "bare"}, pr("t", 1, "raw"), prl("t", 1, "c"))
+		addOut(out, out+"-row-over-4k", nil, prl("o", 0, "head"), prl("o", 0, row4k, "x"), prl("t", 1, row4k, ""), prl("p", 10, "", row4k), prl("o", 0, "tail"), prl("t", 1, ""))
+		addOut(out, out+"-flush-close-status", nil, prl("t", 1, "a", "b"), prl("p", 11, ""), op{K: "F", Name: 1}, op{K: "F", Name: -1}, prl("t", 1, ""), op{K: "C", Name: 1}, op{K: "C", Name: 11}, op{K: "S", Name: 12}, prl("o", 0, ""))
+		addOut(out, out+"-epipe", nil, prl("p", 17, ""), op{K: "W", Name: 6}, prl("p", 17, "x"), prl("o", 0, "not reached"))
+	}
+	addOut("csv", "csv-row-over-64k", nil, prl("o", 0, row64k, "x"), prl("t", 1, row64k), prl("t", 1, ""), prl("p", 10, "y", row64k), prl("o", 0, ""))
 	add("exact-fill", nil, pr("p", 10, "x"), pr("o", 0, "0123456789abcdef"), op{K: "C", Name: 10}, pr("o", 0, "z"))
 	return hs
 }
@@ -979,6 +1077,9 @@ type kase struct {
 
 func classify(h history) string {
 	c := h.Mode
+	if h.Out != "" {
+		c += "+" + h.Out + "-output"
+	}
 	if h.Limit >= 0 {
 		c += "+failing-writer"
 	}
@@ -987,7 +1088,7 @@ func classify(h history) string {
 
 func detail(h history, extra map[string]any) map[string]any {
 	hj, _ := json.Marshal(h)
-	d := map[string]any{"case": string(hj), "program": h.program(), "mode": h.Mode, "cap": h.Cap, "limit": h.Limit, "model_line": h.modelLine()}
+	d := map[string]any{"case": string(hj), "program": h.program(), "mode": h.Mode, "cap": h.Cap, "limit": h.Limit, "output_mode": h.Out, "model_line": h.modelLine()}
 	for k, v := range extra {
 		d[k] = v
 	}
@@ -1135,6 +1236,33 @@ func raceSearch(rep *hx.Report, tries int, only string) {
 					Detail: map[string]any{"program": v.prog, "output": v.output, "want": v.want, "got": got, "kind": "race", "which": v.which}})
 				break
 			}
+		}
+	}
+}
+
+// ---------------------------------------------------------------- F-C13-4: CSV/TSV output mode over a small bufio.Writer
+// writeCSV treats a *bufio.Writer Output as "already buffered" and hands it to encoding/csv, which
+// wraps any bufio.Writer smaller than 4096 bytes in a second, private one; nobody flushes that.
+
+const csvSmallProg = `BEGIN { print "a", "b"; print "c"; print ""; printf "%s\n", "raw" }`
+
+func csvSmallBufferSearch(rep *hx.Report) {
+	for _, size := range []int{1024, 4095} {
+		rep.SearchEvals++
+		prog, err := parser.ParseProgram([]byte(csvSmallProg), nil)
+		if err != nil {
+			rep.HarnessError("csvSmallProg: %v", err)
+			return
+		}
+		fw := &failW{limit: -1}
+		out := bufio.NewWriterSize(fw, size)
+		st, err := interp.ExecProgram(prog, &interp.Config{Output: out, OutputMode: interp.CSVMode, Error: io.Discard, Stdin: strings.NewReader(""), Environ: []string{}})
+		got := fmt.Sprintf("status=%d err=%v stdout=%q", st, err, fw.snapshot())
+		want := `status=0 err=<nil> stdout="a,b\nc\n\"\"\nraw\n"`
+		if got != want {
+			rep.Fail(hx.Failure{Class: "CSV/TSV output mode with Output = bufio.Writer smaller than 4096 bytes", Oracle: "stdout = writes in program order (up to the failure offset)",
+				Detail: map[string]any{"program": csvSmallProg, "output": fmt.Sprintf("bufio.NewWriterSize(w, %d), OutputMode CSV", size), "want": want, "got": got, "kind": "csvsmall"}})
+			return
 		}
 	}
 }
@@ -1298,7 +1426,9 @@ func replay(o hx.Opts) {
 		os.Exit(2)
 	}
 	rep := hx.NewReport("C13", o.Seed, o.Tier)
-	if rp.Failure.Detail["kind"] == "race" {
+	if rp.Failure.Detail["kind"] == "csvsmall" {
+		csvSmallBufferSearch(rep)
+	} else if rp.Failure.Detail["kind"] == "race" {
 		w, _ := rp.Failure.Detail["which"].(string)
 		raceSearch(rep, 5, w)
 	} else {
@@ -1308,7 +1438,7 @@ func replay(o hx.Opts) {
 			fmt.Println("replay file has no case:", err)
 			os.Exit(2)
 		}
-		fmt.Printf("program:\n%smode=%s cap=%d limit=%d\n", h.program(), h.Mode, h.Cap, h.Limit)
+		fmt.Printf("program:\n%smode=%s cap=%d limit=%d outputmode=%q\n", h.program(), h.Mode, h.Cap, h.Limit, h.Out)
 		oc, err := runIsolated(h)
 		stopWorker()
 		if err != nil {
@@ -1486,7 +1616,7 @@ func main() {
 			case strings.HasPrefix(model[i], "driver-error"):
 				rep.HarnessError("modelrun: %s on %s", model[i], k.line)
 			case model[i] != k.impl.canon():
-				rep.Mismatch(hx.Mismatch{Class: k.class, Input: k.h.program() + fmt.Sprintf(" mode=%s cap=%d limit=%d", k.h.Mode, k.h.Cap, k.h.Limit), Impl: k.impl.canon(), Model: model[i], Note: k.line})
+				rep.Mismatch(hx.Mismatch{Class: k.class, Input: k.h.program() + fmt.Sprintf(" mode=%s cap=%d limit=%d outputmode=%q", k.h.Mode, k.h.Cap, k.h.Limit, k.h.Out), Impl: k.impl.canon(), Model: model[i], Note: k.line})
 			}
 		}
 		oracle(k.h, k.impl, rep)
@@ -1496,5 +1626,6 @@ func main() {
 		tries = 10
 	}
 	raceSearch(rep, tries, "")
+	csvSmallBufferSearch(rep)
 	rep.Write(o.Out)
 }
